@@ -11,6 +11,7 @@ dataset with at least one row, any number of groups of any sizes (single-member 
 one or more sensitive feature columns, any positive weights.
 -/
 import FairModel.Lemmas.Fairness
+import FairModel.Model.Derived
 
 namespace C03
 open Fairness Frame Aggregate MetricPool XR
@@ -368,6 +369,38 @@ theorem meanSkip_nan_left (b : Rat) : XR.meanSkip [nan, fin b] = fin b := by
 theorem meanSkip_nan_right (a : Rat) : XR.meanSkip [fin a, nan] = fin a := by
   simp [meanSkip, isNan, XR.add, XR.div]
 
+/-! #### Python's `max` / `min` and pandas' `mean` on ANY pair of disparities (NaN, ±inf included) -/
+
+/-- `max(a, b)`: a NaN first argument is returned, a NaN second argument is ignored, otherwise the
+    NaN-skipping maximum (first argument on ties) -/
+theorem pyFold_max_pair (a b : XR) :
+    pyFold "max" [a, b] = some (if a.isNan then nan else if b.isNan then a else maxSkip2 a b) := by
+  cases a <;> cases b <;> simp [pyFold, pyMax2, XR.lt, isNan, maxSkip2]
+
+theorem pyFold_min_pair (a b : XR) :
+    pyFold "min" [a, b] = some (if a.isNan then nan else if b.isNan then a else minSkip2 a b) := by
+  have hne : ¬ ("min" = "max") := by decide
+  cases a <;> cases b <;> simp [pyFold, hne, pyMin2, XR.lt, isNan, minSkip2]
+
+/-- `Series.mean()` of two values: NaN entries are skipped; all-NaN gives NaN; otherwise the IEEE mean
+    (`inf + -inf = NaN`) -/
+theorem meanSkip_pair (a b : XR) :
+    XR.meanSkip [a, b] =
+      if a.isNan then b else if b.isNan then a else XR.div (XR.add a b) (fin 2) := by
+  cases a <;> cases b <;> simp [meanSkip, isNan, XR.add, XR.div]
+
+/-- on finite disparities: the worst case (max) dominates both components and the mean; the worst case
+    of the ratios (min) is dominated by both and by the mean -/
+theorem worst_case_bounds (a b : Rat) :
+    (∃ M, pyFold "max" [fin a, fin b] = some (fin M) ∧ a ≤ M ∧ b ≤ M ∧
+      ∃ μ, XR.meanSkip [fin a, fin b] = fin μ ∧ μ ≤ M) ∧
+    (∃ m, pyFold "min" [fin a, fin b] = some (fin m) ∧ m ≤ a ∧ m ≤ b ∧
+      ∃ μ, XR.meanSkip [fin a, fin b] = fin μ ∧ m ≤ μ) := by
+  refine ⟨⟨max a b, pyFold_max_fin a b, le_max_left _ _, le_max_right _ _, (a + b) / 2, meanSkip_fin a b, ?_⟩,
+          ⟨min a b, pyFold_min_fin a b, min_le_left _ _, min_le_right _ _, (a + b) / 2, meanSkip_fin a b, ?_⟩⟩
+  · have h1 := le_max_left a b; have h2 := le_max_right a b; linarith
+  · have h1 := min_le_left a b; have h2 := min_le_right a b; linarith
+
 /-- equalized odds difference: worst case = the larger, mean = the average of the TPR and FPR
     between-group differences, each being max − min of the directly computed group rates -/
 theorem eodds_difference_eq_spec (agg : Agg) (nsf : Nat) (rows : List (Row Dat)) (hv : Valid nsf rows)
@@ -390,6 +423,44 @@ theorem eodds_difference_eq_spec (agg : Agg) (nsf : Nat) (rows : List (Row Dat))
   cases agg
   · simp only [pyFold_max_fin, Option.map_some]
   · simp only [meanSkip_fin]
+
+/-- GENERAL form, any method, any pair of disparities (NaN = undefined ratio and ±inf included):
+    with `a` / `b` the TPR / FPR aggregate of the two single-metric frames,
+    equalized_odds_difference = Python `max(a, b)` resp. the NaN-skipping mean, and
+    equalized_odds_ratio = Python `min(a, b)` resp. the NaN-skipping mean. -/
+theorem eodds_general (meth : Method) (nsf : Nat) (rows : List (Row Dat)) (hv : Valid nsf rows)
+    (hb : BinaryRows rows) :
+    (∃ a b, run .tpr .difference meth true nsf rows = .value a ∧ run .fpr .difference meth true nsf rows = .value b ∧
+      eodds "equalized_odds_difference" meth .worstCase nsf rows =
+        some (.value (if a.isNan then nan else if b.isNan then a else maxSkip2 a b)) ∧
+      eodds "equalized_odds_difference" meth .mean nsf rows =
+        some (.value (if a.isNan then b else if b.isNan then a else XR.div (XR.add a b) (fin 2)))) ∧
+    (∃ a b, run .tpr .ratio meth true nsf rows = .value a ∧ run .fpr .ratio meth true nsf rows = .value b ∧
+      eodds "equalized_odds_ratio" meth .worstCase nsf rows =
+        some (.value (if a.isNan then nan else if b.isNan then a else minSkip2 a b)) ∧
+      eodds "equalized_odds_ratio" meth .mean nsf rows =
+        some (.value (if a.isNan then b else if b.isNan then a else XR.div (XR.add a b) (fin 2)))) := by
+  constructor
+  · obtain ⟨a, b, ha, hb', he⟩ := eodds_def "equalized_odds_difference" "difference" "max" .difference
+      (by decide +kernel) (by decide +kernel) meth .worstCase nsf rows hv hb
+    obtain ⟨a', b', ha', hb'', he'⟩ := eodds_def "equalized_odds_difference" "difference" "max" .difference
+      (by decide +kernel) (by decide +kernel) meth .mean nsf rows hv hb
+    rw [ha] at ha'; rw [hb'] at hb''
+    injection ha' with ha'; injection hb'' with hb''
+    subst ha'; subst hb''
+    refine ⟨a, b, ha, hb', ?_, ?_⟩
+    · rw [he]; simp only [pyFold_max_pair, Option.map_some]
+    · rw [he']; simp only [meanSkip_pair]
+  · obtain ⟨a, b, ha, hb', he⟩ := eodds_def "equalized_odds_ratio" "ratio" "min" .ratio
+      (by decide +kernel) (by decide +kernel) meth .worstCase nsf rows hv hb
+    obtain ⟨a', b', ha', hb'', he'⟩ := eodds_def "equalized_odds_ratio" "ratio" "min" .ratio
+      (by decide +kernel) (by decide +kernel) meth .mean nsf rows hv hb
+    rw [ha] at ha'; rw [hb'] at hb''
+    injection ha' with ha'; injection hb'' with hb''
+    subst ha'; subst hb''
+    refine ⟨a, b, ha, hb', ?_, ?_⟩
+    · rw [he]; simp only [pyFold_min_pair, Option.map_some]
+    · rw [he']; simp only [meanSkip_pair]
 
 /-- equalized odds ratio when both ratios are defined (a group with a positive TPR and one with a
     positive FPR exist): worst case = the smaller, mean = the average of min/max ratios -/
@@ -433,6 +504,113 @@ theorem run_group_method_irrelevant (m : Metric) (meth : Method) (b : Bool) (nsf
     run m .groupMin meth b nsf rows = run m .groupMin .between true nsf rows ∧
     run m .groupMax meth b nsf rows = run m .groupMax .between true nsf rows := by
   constructor <;> simp [run, applyAgg]
+
+/-! ### argument plumbing of `make_derived_metric` (`Model/Derived.lean` over the generated `DerivedSpec`) -/
+
+/-- The constructor succeeds exactly when the metric is callable, does not itself take a reserved
+    transform parameter (`method`), and the transform is one of the four options; it then stores the
+    transform and the sample parameter names (`None` ↦ no sample parameters).  Every way it fails is a
+    ValueError (non-callable metric, a metric that takes `method`, an unknown transform string) — in
+    particular `inspect.signature` (TypeError) is never reached for a non-callable. -/
+theorem derived_make_eq (mi : Derived.MetricInfo) (tr : String) (spn : Option (List String)) :
+    Derived.make mi tr spn =
+      if mi.callable = true ∧ "method" ∉ mi.sigParams ∧ tr ∈ FairnessSpec.transformOptions
+      then .ok ⟨tr, spn.getD []⟩ else .error .valueError := by
+  obtain ⟨c, hn, sp, aa⟩ := mi
+  cases c <;> by_cases hm : "method" ∈ sp <;> by_cases ht : tr ∈ FairnessSpec.transformOptions <;>
+    simp [Derived.make, Derived.runChecks, Derived.checkStep, DerivedSpec.initChecks,
+      FairnessSpec.parametersForTransforms, hm, ht]
+
+theorem derived_make_ok_iff (mi : Derived.MetricInfo) (tr : String) (spn : Option (List String)) :
+    Derived.make mi tr spn = .ok ⟨tr, spn.getD []⟩ ↔
+      (mi.callable = true ∧ "method" ∉ mi.sigParams ∧ tr ∈ FairnessSpec.transformOptions) := by
+  rw [derived_make_eq]
+  split <;> simp_all
+
+theorem derived_make_error_is_valueError (mi : Derived.MetricInfo) (tr : String) (spn : Option (List String))
+    (e : Derived.Out) (h : Derived.make mi tr spn = .error e) : e = .valueError := by
+  rw [derived_make_eq] at h
+  split at h
+  · cases h
+  · injection h with h; exact h.symm
+
+theorem derived_make_fails (mi : Derived.MetricInfo) (tr : String) (spn : Option (List String))
+    (h : mi.callable = false ∨ "method" ∈ mi.sigParams ∨ tr ∉ FairnessSpec.transformOptions) :
+    Derived.make mi tr spn = .error .valueError := by
+  rw [derived_make_eq, if_neg]
+  rintro ⟨h1, h2, h3⟩
+  rcases h with h | h | h
+  · rw [h1] at h; cases h
+  · exact h2 h
+  · exact h h3
+
+/-- Routing of `**other_params`: a name listed in `sample_param_names` is a sample parameter (even
+    `method`); otherwise `method` is a transform parameter; every other name is bound to the metric. -/
+theorem derived_route (spn : List String) (k : String) :
+    Derived.route spn k =
+      if k ∈ spn then "sample" else if k = "method" then "transform" else "bound" := by
+  unfold Derived.route
+  simp only [DerivedSpec.routeChain, DerivedSpec.routeDefault, List.find?_cons, List.find?_nil, Derived.inCollection,
+    FairnessSpec.parametersForTransforms]
+  by_cases h1 : k ∈ spn
+  · simp [h1]
+  · by_cases h2 : k = "method"
+    · subst h2; simp [h1]
+    · simp [h1, h2]
+
+/-- with the default `sample_param_names`, `method` reaches the transform and `sample_weight` is sliced -/
+theorem derived_route_default :
+    Derived.route DerivedSpec.defaultSampleParamNames "method" = "transform" ∧
+    Derived.route DerivedSpec.defaultSampleParamNames "sample_weight" = "sample" ∧
+    Derived.route DerivedSpec.defaultSampleParamNames "pos_label" = "bound" := by
+  decide +kernel
+
+/-- "returns what the equivalent MetricFrame call returns": after the routing, the call IS the frame
+    construction + aggregate of `Fairness.derived` (the model of every generated `<metric>_<transform>`
+    function), for every transform, dataset and valid `method=` string; without `method=` it is the
+    default `between_groups`. -/
+theorem derived_finish_eq (d : Derived.Made) (s : String) (m : Method) (hm : Derived.parseMethodStr s = some m)
+    (nsf : Nat) (rows : List (Row Dat)) :
+    Derived.finish d (some (.str s)) nsf rows = (derived .meanpred d.transform m nsf rows).map Derived.ofRes ∧
+    Derived.finish d none nsf rows = (derived .meanpred d.transform .between nsf rows).map Derived.ofRes := by
+  have hrun : ∀ k, run .meanpred k m false nsf rows = run .meanpred k .between false nsf rows := by
+    intro k; simp [run, applyAgg]
+  unfold Derived.finish derived
+  cases FairnessSpec.dispatch.find? (fun e => e.1 == d.transform) with
+  | none => simp
+  | some disp =>
+    obtain ⟨t, mm, b⟩ := disp
+    cases hk : aggOfName mm with
+    | none => simp [hk]
+    | some k => cases b <;> simp [hk, hm, hrun]
+
+/-- an unknown `method=` string makes difference / ratio raise ValueError, while group_min / group_max
+    never look at it -/
+theorem derived_bad_method (d : Derived.Made) (s : String) (hs : Derived.parseMethodStr s = none)
+    (nsf : Nat) (rows : List (Row Dat)) :
+    (d.transform = "difference" ∨ d.transform = "ratio" → Derived.finish d (some (.str s)) nsf rows = some .valueError) ∧
+    (d.transform = "group_min" ∨ d.transform = "group_max" →
+      Derived.finish d (some (.str s)) nsf rows = Derived.finish d none nsf rows) := by
+  constructor
+  · rintro (h | h) <;> simp [Derived.finish, h, FairnessSpec.dispatch, aggOfName, hs]
+  · rintro (h | h) <;> simp [Derived.finish, h, FairnessSpec.dispatch, aggOfName]
+
+/-- STRICT name rule (`self._metric_fn.__name__`, the source before repair be74ce5 — finding F17): a
+    callable without `__name__` (a `functools.partial` object, a callable instance) passes the constructor
+    but every call raises AttributeError, although the equivalent `MetricFrame(metrics=functools.partial(...))`
+    call answers. -/
+theorem derived_nameless_raises (mi : Derived.MetricInfo) (hn : mi.hasName = false) (d : Derived.Made)
+    (kw : List (String × Derived.KwVal)) (ys ps : List Rat) (cols : List (List Level)) :
+    Derived.callWith true mi d kw ys ps cols = some .attributeError := by
+  simp [Derived.callWith, hn]
+
+/-- CURRENT source (name rule lifted into `DerivedSpec.readsName`): whether the metric object has a
+    `__name__` makes no difference — a nameless callable gives exactly the result of the same metric as a
+    plain function, i.e. the MetricFrame result of `derived_finish_eq`. -/
+theorem derived_nameless_ok (mi : Derived.MetricInfo) (d : Derived.Made)
+    (kw : List (String × Derived.KwVal)) (ys ps : List Rat) (cols : List (List Level)) :
+    Derived.call mi d kw ys ps cols = Derived.call { mi with hasName := true } d kw ys ps cols := by
+  simp [Derived.call, Derived.callWith, DerivedSpec.readsName]
 
 /-- every variant listed in METRICS_SPEC is a transform `make_derived_metric` accepts and
     `_DerivedMetric.__call__` dispatches; the generated names are pairwise distinct -/
